@@ -700,7 +700,7 @@ class Executor:
         if isinstance(a, Ref) and isinstance(b, Ref):
             return a.oid == b.oid
         if isinstance(a, Ext) and isinstance(b, Ext):
-            return a.name == b.name
+            return self.lib.canon(a.name) == self.lib.canon(b.name)
         if isinstance(a, (Ref, Ext)) or isinstance(b, (Ref, Ext)):
             if isinstance(a, (Dyn, Unknown)) or isinstance(b, (Dyn, Unknown)):
                 return z3.Bool(self.fresh('same_object'))
@@ -743,7 +743,7 @@ class Executor:
         if isinstance(a, (Ext, BoundMethod)) or isinstance(b, (
                 Ext, BoundMethod)):
             if isinstance(a, Ext) and isinstance(b, Ext):
-                return a.name == b.name
+                return self.lib.canon(a.name) == self.lib.canon(b.name)
             return z3.Bool(self.fresh('objeq'))
         if isinstance(a, Unknown) or isinstance(b, Unknown):
             return z3.Bool(self.fresh('eq_unknown'))
@@ -1037,7 +1037,8 @@ class Executor:
         if name in BUILTIN_NAMES:
             return Ext('builtins.' + name)
         self.oblige(st, 'name-resolves', False, node,
-                    'name %s resolves to a binding' % name)
+                    'name %s resolves to a binding' % name,
+                    extra={'prop': 'C10'})
         raise PyRaise('NameError', name)
 
     def store_name(self, st, fid, name, v):
